@@ -68,7 +68,7 @@ def rule_Q1(F, R):
         sent = set()
         for p in paths:
             for e in p.events:
-                if any(nm.endswith("WrapperTxn::call") for nm in e["names"]):
+                if len(e["args"]) >= 2 and any("send_wrapper::wrapper" in nm for nm in e["names"]):
                     f = e["args"][1]
                     if f[0] == "K" and str(f[1]).startswith("fn:" + MSG + "::"):
                         sent.add((str(f[1]).split("::")[-1], None))
@@ -189,7 +189,9 @@ def rule_Q2(F, R):
             continue
         c = cfg_of(b)
         fl = flow_of(b)
-        guards = [i for i, t in c.calls() if any(n.endswith("check_write_access") for n in call_names(t))]
+        import roles
+        acf = roles.access_check_fn(F)
+        guards = [i for i, t in c.calls() if acf and any(roles.norm(n) == roles.norm(acf) for n in call_names(t))]
         writes = []
         for i, t in c.calls():
             if is_plumbing(t):
@@ -336,10 +338,13 @@ def rule_N3(F, R):
                 if it["name"] == "is_empty" and "send_wrapper::wrapper" not in it["path"]:
                     R.info("N3", "%s overrides is_empty" % it["path"])
     # guards in sync and apply_snapshot
-    for fn, what in (("taskdb::sync::sync", "get_snapshot"), ("taskdb::snapshot::apply_snapshot", "set_task")):
-        b = F.real_body(fn)
+    import roles
+    import r_sync
+    sb = r_sync.sync_fn(F)
+    for fn, what in (((sb or {}).get("owner_fn"), "get_snapshot"), (roles.apply_snapshot_fn(F), "set_task")):
+        b = F.real_body(fn) if fn else None
         if b is None:
-            R.missing("N3", fn)
+            R.missing("N3", "the sync function / the taskdb function that installs a snapshot")
             continue
         c = cfg_of(b)
         fl = flow_of(b)
@@ -365,19 +370,22 @@ def rule_N3(F, R):
 
 def rule_N4(F, R):
     R.begin("N4", "apply_snapshot writes every decoded task with set_task and sets the base version to the snapshot's version; make_snapshot encodes all_tasks()")
-    b = F.real_body("taskdb::snapshot::apply_snapshot")
-    if b is None:
-        R.missing("N4", "taskdb::snapshot::apply_snapshot")
+    import roles
+    enc_fn, dec_fn = roles.snapshot_codec(F)
+    asf = roles.apply_snapshot_fn(F)
+    b = F.real_body(asf) if asf else None
+    if b is None or not dec_fn:
+        R.missing("N4", "the taskdb function that installs a snapshot (set_task + set_base_version) / the snapshot decoder")
         return
     c = cfg_of(b)
     fl = flow_of(b)
     st = calls_matching(c, re.escape(TXN) + "::set_task$")
     sb = calls_matching(c, re.escape(TXN) + "::set_base_version$")
-    dec = calls_matching(c, r"SnapshotTasks::decode$")
+    dec = calls_matching(c, "^" + re.escape(dec_fn) + "$")
     if not st or not sb or not dec:
         R.violation("N4", b["owner_fn"], "apply-shape", "apply_snapshot lacks decode / set_task / set_base_version", where(b))
         return
-    stop = lambda t: any(n.endswith("SnapshotTasks::decode") for n in call_names(t))
+    stop = lambda t: any(roles.norm(n) == roles.norm(dec_fn) for n in call_names(t))
     for (i, t) in st:
         if not c.in_loop(i):
             R.violation("N4", b["owner_fn"], "set_task-not-per-task", "set_task is not called once per decoded task", where(b, i))
@@ -405,14 +413,15 @@ def rule_N4(F, R):
         else:
             R.violation("N4", b["owner_fn"], "base-version", "set_base_version is not given the snapshot's version", where(b, i))
         # on every path to Ok
-    mk = F.real_body("taskdb::snapshot::make_snapshot")
-    if mk is None:
-        R.missing("N4", "taskdb::snapshot::make_snapshot")
+    mkf = roles.make_snapshot_fn(F)
+    mk = F.real_body(mkf) if mkf else None
+    if mk is None or not enc_fn:
+        R.missing("N4", "the taskdb function that builds a snapshot from all_tasks() / the snapshot encoder")
         return
     mc = cfg_of(mk)
     mf = flow_of(mk)
     at = calls_matching(mc, re.escape(TXN) + "::all_tasks$")
-    enc = calls_matching(mc, r"SnapshotTasks::encode$")
+    enc = calls_matching(mc, "^" + re.escape(enc_fn) + "$")
     if not at or not enc:
         R.violation("N4", mk["owner_fn"], "make-shape", "make_snapshot does not encode all_tasks()", where(mk))
     else:
@@ -425,10 +434,12 @@ def rule_N4(F, R):
 
 def rule_N5(F, R):
     R.begin("N5", "snapshot codec pairing: encode = serde_json into a zlib encoder; decode = zlib decoder into serde_json; the serializer emits one (uuid, task) map entry per task")
-    enc = F.bodies.get("taskdb::snapshot::SnapshotTasks::encode")
-    dec = F.bodies.get("taskdb::snapshot::SnapshotTasks::decode")
+    import roles
+    ef, df = roles.snapshot_codec(F)
+    enc = F.bodies.get(ef) if ef else None
+    dec = F.bodies.get(df) if df else None
     if enc is None or dec is None:
-        R.missing("N5", "SnapshotTasks::encode / decode")
+        R.missing("N5", "the snapshot encoder / decoder (functions using ZlibEncoder / ZlibDecoder)")
         return
     en = {n for (_i, t) in cfg_of(enc).calls() for n in call_names(t)}
     dn = {n for (_i, t) in cfg_of(dec).calls() for n in call_names(t)}
@@ -437,10 +448,10 @@ def rule_N5(F, R):
     if e_ok and d_ok:
         R.ok("N5", "encode: serde_json::to_writer -> ZlibEncoder::finish; decode: ZlibDecoder -> serde_json::from_reader", where(enc))
     else:
-        R.violation("N5", "taskdb::snapshot::SnapshotTasks", "codec-pairing", "the snapshot encoder and decoder are no longer the zlib(JSON) pair (encode ok=%s, decode ok=%s)" % (e_ok, d_ok), where(enc))
+        R.violation("N5", "taskdb::snapshot", "codec-pairing", "the snapshot encoder and decoder are no longer the zlib(JSON) pair (encode ok=%s, decode ok=%s)" % (e_ok, d_ok), where(enc))
     ser = None
     for p, b in F.bodies.items():
-        if "SnapshotTasks" in p and p.endswith("::serialize") and "Serialize" in p:
+        if p.startswith("<taskdb::snapshot::") and p.endswith("::serialize") and "Serialize" in p and not p.startswith("<taskdb::snapshot::_"):
             ser = b
     if ser is None:
         R.missing("N5", "impl Serialize for SnapshotTasks")
@@ -529,7 +540,8 @@ def rule_D(F, R):
                         # must be reached through a Transaction deref, i.e. receiver derives from get_txn()/self.txn
                         s = flow_of(b).slice_operand(t["args"][0])
                         nm += 1
-                        if not (s.has_call(r"get_txn$") or any("txn" in str(r) for r in s.roots)):
+                        own_helper = any((tt.get("callee") or "").startswith("storage::sqlite::inner::Txn") for tt in s.calls.values())
+                        if not (own_helper or any("txn" in str(r) for r in s.roots)):
                             bad += 1
                             R.violation("D3", it["path"], "statement-outside-transaction", "%s runs a statement on the bare connection" % it["name"], where(b, i))
         if not bad:
@@ -544,7 +556,7 @@ def rule_D(F, R):
                     paths = [p for p in SymExec(b, cfg_of(b)).run() if p.end[0] == "return"]
                     okc = bool(paths)
                     for p in paths:
-                        if not (p.ret[0] == "C" and p.ret[2].endswith("WrapperTxn::call") and _has(p.ret, lambda v: v == ("K", "fn:" + MSG + "::Commit"))):
+                        if not (p.ret[0] == "C" and "send_wrapper::wrapper" in p.ret[2] and _has(p.ret, lambda v: v == ("K", "fn:" + MSG + "::Commit"))):
                             okc = False
                     if okc:
                         R.ok("D4", "WrapperTxn::commit returns call(TxnMessage::Commit) on all %d paths" % len(paths), where(b))
